@@ -71,6 +71,7 @@ def generate(run_seed, tier):
         r4a.decreasing_levels(rn, windows, shape, noise)
     return {"rig": NAME, "prop": PROP, "noise": noise, "windows": windows, "read_size": read_size, "buffer_size": buffer_size,
             "pipe_cap": rs.choice([1, 2, 64]), "sink_stalls": [[rs.randrange(0, 5000), rs.choice([100, 5000])] for _ in range(rs.choice([0, 0, 1]))],
+            "op_stalls": [["time", rs.randint(1, 10), rs.choice([300000, 2000000])] for _ in range(rs.choice([0, 0, 1, 2]))],
             "phase_seed": rn.getrandbits(31), "tape": {str(i): 1 for i in range(400) if rs.random() < 0.2}}
 
 
@@ -131,6 +132,8 @@ def execute(sc, keep_log=False):
     t_sink = k.spawn("sink", sink)
     for at, dur in sc.get("sink_stalls", []):
         k.stall(t_sink, at, dur)
+    for op, nth, dur in sc.get("op_stalls", []):
+        k.stall_at_op(t_src, op, nth, dur)   # descheduled between two clock reads inside _process_buffer
     try:
         k.run()
     finally:
@@ -209,7 +212,7 @@ def focus(sc, violation):
 def shrink(sc, fails, budget_n=120):
     b = Budget(budget_n)
     sc = dict(sc)
-    for key, val in (("tape", {}), ("sink_stalls", []), ("pipe_cap", 64)):
+    for key, val in (("tape", {}), ("sink_stalls", []), ("op_stalls", []), ("pipe_cap", 64)):
         if sc.get(key) != val and b.take():
             c = dict(sc)
             c[key] = val
